@@ -57,9 +57,9 @@ Proof.
   - apply (IH _ _ Hnd H).
 Qed.
 
-Lemma convert_charts_total allowed tmpl : forall charts,
+Lemma convert_charts_total post allowed tmpl : forall charts,
   (forall c, List.In c charts -> exists c', copy_props inv beh allowed c tmpl = COk c') ->
-  exists cs, convert_charts inv beh allowed tmpl charts = COk cs.
+  exists cs, convert_charts post inv beh allowed tmpl charts = COk cs.
 Proof.
   induction charts as [|c r IH]; intro H; [exists []; reflexivity|]. cbn [convert_charts].
   destruct (H c (or_introl eq_refl)) as [c' E]. rewrite E.
@@ -101,13 +101,13 @@ Proof.
   unfold sm_to_ssc, convert_core in H. destruct (sm_negative_timing sf) as [[|]| | | |]; try discriminate.
   cbn [base_of fst snd chart_tmpl_of nonempty_props] in H.
   destruct (copy_props Tables.invalid_ssc_simfile [] None sf Tables.blank_ssc_simfile) as [out0| | | |] eqn:Eo; try discriminate.
-  destruct (convert_charts Tables.invalid_ssc_chart [] None Tables.blank_ssc_chart charts) as [cs0| | | |] eqn:Ec; try discriminate.
+  destruct (convert_charts notes_last Tables.invalid_ssc_chart [] None Tables.blank_ssc_chart charts) as [cs0| | | |] eqn:Ec; try discriminate.
   cbn [lift_charts app] in H. inversion H; subst out0 cs0. clear H.
   pose proof (copy_props_nodup _ _ None sf _ out Nsf Eo) as Nout.
   pose proof (copy_props_get _ _ None sf _ out Hnd Eo) as Gout.
   assert (Gout' : forall k, get k out = match get k sf with Some v => Some v | None => get k Tables.blank_ssc_simfile end).
   { intro k. rewrite Gout. destruct (get k sf); [rewrite E1, decide_nil|]; reflexivity. }
-  destruct (convert_charts_outcomes _ _ _ _ _ _ Ec) as [Lcs Ncs].
+  destruct (convert_charts_outcomes _ _ _ _ _ _ _ Ec) as [Lcs Ncs].
   (* no warps in the result *)
   destruct warps_facts as [Ww Wb].
   assert (Hw : ssc_has_warps out = false).
@@ -125,15 +125,16 @@ Proof.
       + left. destruct (decide Tables.invalid_sm_simfile [] k v); try discriminate T. reflexivity. }
   rewrite Esm.
   (* chart level *)
-  destruct (convert_charts_total Tables.invalid_sm_chart [] (Some Tables.sm_chart_properties) Tables.blank_sm_chart cs) as [cs' Ecs'].
+  destruct (convert_charts_total Tables.invalid_sm_chart [] (fun c => c) (Some Tables.sm_chart_properties) Tables.blank_sm_chart cs) as [cs' Ecs'].
   { intros c' Hc'. destruct (In_nth_error _ _ Hc') as [i Hi].
     assert (Hil : (i < length cs)%nat) by (apply nth_error_Some; congruence).
     destruct (nth_error charts i) as [c|] eqn:Eci; [|exfalso; apply nth_error_None in Eci; rewrite Lcs in Hil; apply (Nat.lt_irrefl i); eapply Nat.lt_le_trans; eauto].
-    destruct (Ncs i c Eci) as (c0 & Hi0 & Ecp). rewrite Hi in Hi0. inversion Hi0; subst c0. clear Hi0.
+    destruct (Ncs i c Eci) as (c0 & Hi0 & Ecp). rewrite Hi in Hi0. inversion Hi0; subst c'. clear Hi0.
     assert (Hcin : List.In c charts) by (eapply nth_error_In; eauto).
-    pose proof (copy_props_nodup _ _ None c _ c' Nch Ecp) as Nc'.
-    pose proof (copy_props_get _ _ None c _ c' (Hc c Hcin) Ecp) as Gc.
-    apply copy_props_total. intros k v Hin. pose proof (In_get k v c' Nc' Hin) as G. rewrite Gc in G.
+    pose proof (copy_props_nodup _ _ None c _ c0 Nch Ecp) as Nc0.
+    pose proof (move_to_end_NoDupKeys kNOTES c0 Nc0) as Nc'.
+    pose proof (copy_props_get _ _ None c _ c0 (Hc c Hcin) Ecp) as Gc.
+    apply copy_props_total. intros k v Hin. pose proof (In_get k v _ Nc' Hin) as G. unfold notes_last in G. rewrite (get_move_to_end kNOTES k c0 Nc0), Gc in G.
     pose proof six_not_ssc_only as S6. rewrite forallb_forall in S6.
     destruct (get k c) as [v'|] eqn:Gk.
     - assert (M : mem_str k Tables.sm_chart_properties = true) by (apply (Hsix c k Hcin); apply has_get; eauto).
@@ -143,15 +144,16 @@ Proof.
       + apply andb_prop in T as [M N]. right. split; [|exact M]. apply decide_not_listed. apply negb_true_iff. exact N.
       + left. destruct (decide Tables.invalid_sm_chart [] k v); try discriminate T. reflexivity. }
   rewrite Ecs'. cbn [lift_charts app]. exists sm', cs'. split; [reflexivity|].
-  destruct (convert_charts_outcomes _ _ _ _ _ _ Ecs') as [Lcs' Ncs'].
+  destruct (convert_charts_outcomes _ _ _ _ _ _ _ Ecs') as [Lcs' Ncs'].
   split; [|split; [rewrite Lcs'; exact Lcs|]].
   - intros k v G. rewrite (copy_props_get _ _ None out _ sm' Nout Esm k), Gout', G.
     rewrite decide_not_listed; [reflexivity|]. apply Hsf. apply has_get. eauto.
-  - intros i c Hi. destruct (Ncs i c Hi) as (c' & Hi' & Ecp). destruct (Ncs' i c' Hi') as (c'' & Hi'' & Ecp').
+  - intros i c Hi. destruct (Ncs i c Hi) as (c' & Hi' & Ecp). destruct (Ncs' i _ Hi') as (c'' & Hi'' & Ecp').
     exists c''. split; [exact Hi''|]. intros k v G.
     assert (Hcin : List.In c charts) by (eapply nth_error_In; eauto).
-    pose proof (copy_props_nodup _ _ None c _ c' Nch Ecp) as Nc'.
-    rewrite (copy_props_get _ _ _ c' _ c'' Nc' Ecp' k), (copy_props_get _ _ None c _ c' (Hc c Hcin) Ecp k), G, E2, decide_nil.
+    pose proof (copy_props_nodup _ _ None c _ c' Nch Ecp) as Nc0.
+    pose proof (move_to_end_NoDupKeys kNOTES c' Nc0) as Nc'.
+    rewrite (copy_props_get _ _ _ (notes_last c') _ c'' Nc' Ecp' k). unfold notes_last. rewrite (get_move_to_end kNOTES k c' Nc0), (copy_props_get _ _ None c _ c' (Hc c Hcin) Ecp k), G, E2, decide_nil.
     pose proof six_not_ssc_only as S6. rewrite forallb_forall in S6.
     assert (M : mem_str k Tables.sm_chart_properties = true) by (apply (Hsix c k Hcin); apply has_get; eauto).
     rewrite decide_not_listed; [reflexivity|]. apply negb_true_iff. apply S6. apply mem_str_In. exact M.
